@@ -131,6 +131,16 @@ def dispatch (f : String) (j : Json) : Option Json :=
       | "prepend" => return editJson (prepend v len) la
       | "prextend" => return editJson (prextend v len) la
       | _ => return err "op"
+  | "C03.view_name" => some <| Id.run do
+      let some st := getNat j "start" | return err "start"
+      let sp := getNat j "stop"
+      let some off := getNat j "off" | return err "off"
+      let some name := getStr j "name" | return err "name"
+      let some arr := getArr j "names" | return err "names"
+      let names : List (Option String) := arr.toList.map asStr
+      return match nameItem ⟨st, sp⟩ names off name with
+        | none => Json.str "IndexError"
+        | some (k, _) => Json.mkObj [("item", ofInt k)]
   | "C03.virt" => some <| Id.run do
       let some kind := getStr j "kind" | return err "kind"
       match kind with
